@@ -21,6 +21,7 @@ RULE = (
     ' phasefield_history: parameter / mesh modifications of a PhaseField simulation with an injected (u, d) state, matrices of both problems and energies vs a fresh simulation (non-trivial = a modification after a first read). inelastic_history: plastic steps committed, mesh replaced (same or other size), first step vs a new simulation (non-trivial = plastic flow before the replacement).'
     ' restore_then_solve: a run of saved load steps up to a peak and back, Set_Iter(j), one more step - against a new simulation replayed up to iteration j (non-trivial = j is not the last iteration and the response is non-zero).'
     ' Round 8: operation copy_mesh (the mesh replaced by a copy of itself made with warm caches) and phasefield_replace (damaged saved history, mesh replaced by one of the same or another size, light load vs a new simulation).'
+    ' Round 9: beam histories may give a member another section; elastic / thermal histories may save the simulation to disk (save_simu) so that older meshes are read back from their files.'
 )
 ASSUMPTIONS = [
     "reference = a new simulation built from the declarative model (new law object, new Mesh object rebuilt from arrays, "
